@@ -105,7 +105,7 @@ func (tr *Tr) stdModel(fr *Frame, site ssa.Instruction, c *ssa.CallCommon, sf *s
 	case "errors.New":
 		tr.trust("errors.New returns a fresh non-nil error")
 		e := tr.errValue(fr, "errors.New")
-		tr.assume(f.Not(f.App("err_content", SBool, e[0], e[1], e[2])), "errors.New is not a content error")
+		tr.assumeHere(f.Not(f.App("err_content", SBool, e[0], e[1], e[2])), "errors.New is not a content error")
 		return e, true
 	case "fmt.Errorf":
 		tr.trust("fmt.Errorf returns a fresh non-nil error; %w keeps the wrapped chain")
@@ -113,10 +113,10 @@ func (tr *Tr) stdModel(fr *Frame, site ssa.Instruction, c *ssa.CallCommon, sf *s
 		if w := tr.wrappedOperand(c); w != nil {
 			wv := tr.val(w)
 			if len(wv) == 3 {
-				tr.assume(f.Eq(f.App("err_content", SBool, e[0], e[1], e[2]), f.App("err_content", SBool, wv[0], wv[1], wv[2])), "%w preserves errors.As")
+				tr.assumeHere(f.Eq(f.App("err_content", SBool, e[0], e[1], e[2]), f.App("err_content", SBool, wv[0], wv[1], wv[2])), "%w preserves errors.As")
 			}
 		} else {
-			tr.assume(f.Not(f.App("err_content", SBool, e[0], e[1], e[2])), "fmt.Errorf without %w is not a content error")
+			tr.assumeHere(f.Not(f.App("err_content", SBool, e[0], e[1], e[2])), "fmt.Errorf without %w is not a content error")
 		}
 		return e, true
 	case "errors.As":
